@@ -148,7 +148,7 @@ theorem mem_imagePts (w h : Nat) (q : Int × Int) : q ∈ imagePts w h ↔ inImg
     apply Prod.ext <;> simp only <;> omega
 
 theorem nbK_iff (ker : List Int) (ks cy cx : Nat) (p q : Int × Int) :
-    nbK ker ks cy cx p q = true ↔ ∃ r c, r < ks ∧ c < ks ∧ ker.getD (c * ks + r) 0 ≠ 0
+    nbK ker ks cy cx p q = true ↔ ∃ r c, r < ks ∧ c < ks ∧ ker.getD (r * ks + c) 0 ≠ 0
       ∧ q.1 = p.1 + ((cx : Int) - (c : Int)) ∧ q.2 = p.2 + ((cy : Int) - (r : Int)) := by
   unfold nbK isNeighbour
   simp only [List.any_eq_true, List.mem_range, Bool.and_eq_true, bne_iff_ne, ne_eq, beq_iff_eq, decide_eq_true_eq]
